@@ -275,3 +275,62 @@ PROPS["C12"] = Prop(
     trusted_base=VERUS_TRUST,
     not_covered=["iteration / printing order", "aliasing", "== between objects (C10)"],
 )
+
+
+def _vu(name, fns):
+    return VUnit(name, name, fns)
+
+
+ALL_V = [
+    _vu("ctl", ["eval::eval_stmts_with_scope_stack", "eval::eval_stmt", "eval::eval_prog"]),
+    _vu("scoped", ["eval::eval_stmts", "eval::eval_stmts_in_new_scope"]),
+    _vu("call", ["eval::eval_call"]),
+    _vu("expr", ["eval::eval_expr"]),
+    _vu("items", ["eval::eval_list_items"]),
+    _vu("bind_next", ["bind::bind_next", "bind::bind", "bind::binary_operation_assign", "scope::set"]),
+    _vu("name_bind", ["bind::bind_next_name", "bind::bind_name"]),
+    _vu("list_bind", ["bind::bind_list"]),
+    _vu("object_bind", ["bind::bind_object", "bind::bind_object_prop"]),
+    _vu("range_assign", ["bind::bind_range_index"]),
+    _vu("render", ["main::eval_err_to_stacktrace"]),
+]
+
+PROPS["C14"] = Prop(
+    "C14", "proof",
+    "Call-site half, per function contract: arguments are evaluated once, left to right, before the callee (V-items, V-call); the count is checked "
+    "(exactly n / at least n-1 with a rest parameter); each value is DECLARED as a fresh variable in a new scope pushed on the closure's chain, not the "
+    "caller's (V-call, V-scoped); `this` is bound exactly when the function value carries a source and to that source (V-call); property / index / "
+    "type-function reads attach the object read from as the source (V-expr). Provenance is preserved by every copy site under contract: declaration and "
+    "assignment store the value with its source (V-name), list items, arguments and return values are passed on unchanged (V-items, V-call, V-ctl).",
+    vunits=[_vu("call", ["eval::eval_call"]), _vu("expr", ["eval::eval_expr"]), _vu("items", ["eval::eval_list_items"]),
+            _vu("scoped", ["eval::eval_stmts"]), _vu("name_bind", ["bind::bind_next_name"]), _vu("ctl", ["eval::eval_stmt"])],
+    assumptions=[
+        "the property quantifies over ROUTES a function value takes through the heap; what is proved is that each route step under contract preserves "
+        "the (value, source) pair - the composition over a whole history is an argument over these contracts, not a machine-checked theorem",
+        "stores into lists/objects through bind_next (element / property writes) keep the stored SourcedValue (V-bindnext: slot receives rhs) but heap "
+        "visibility through aliases is not claimed (A-lock)",
+        "ScopeStack stores and returns the pair unchanged (assumed scope contract)",
+    ],
+    trusted_base=VERUS_TRUST,
+    not_covered=["aliasing / heap histories", "assigning to a parameter not affecting the caller (scope discipline, C04)"],
+)
+
+PROPS["C02"] = Prop(
+    "C02", "other",
+    "Crash-freedom is decided trap class by trap class. (1) Arithmetic traps: every Int x Int arm of apply_binary_operation runs under Kani's "
+    "overflow / division-by-zero / panic checks for all operand pairs (units of C06). (2) Index / slice arithmetic and Option/Result unwraps in the "
+    "evaluator: every Verus unit verifies its extracted function with Verus' built-in obligations (no arithmetic overflow, every index in bounds, every "
+    "callee precondition such as `start <= len` for a tail slice) - eval_call, eval_expr, eval_list_items, bind_next, bind_list, bind_object, "
+    "bind_range_index, eval_stmt. NOT decided: lock discipline (try_lock().unwrap() on an already locked cell - `==` on shared sub-structure, "
+    "`xs[0] += xs`, render of a cyclic value), host stack depth, and the interpolation slot offsets (byte vs char) used by interpolate_string.",
+    kunits=C06_UNITS,
+    vunits=ALL_V,
+    assumptions=[
+        "A-lock: every lock_deref!/try_lock succeeds - lock re-entrancy panics are explicitly OUT of what is decided (known by reading: `a := [[]]; [a] == a`, `xs[0] += xs`)",
+        "interpolate_string's string slicing by lexer-provided offsets is not under contract (multi-byte text before a slot panics on the pinned tree; found by reading, not reported by any check)",
+        "grammar invariant: a rest parameter / collect pattern always comes with at least one item",
+        "usize -> i64 casts (CastFailed) and host stack depth are not modelled",
+    ],
+    trusted_base=VERUS_TRUST + COMMON_TRUST,
+    not_covered=["lock discipline", "interpolation slot offsets", "stack overflow", "builtins::fns::render", "lexer string/int paths"],
+)
